@@ -121,7 +121,7 @@ Qed.
 Lemma lookup_loop_S : forall f dbg hb h row_size address len reader,
   lookup_loop (S f) dbg hb h row_size address len reader =
   if len <=? 1 then Ok reader else
-  let* k := chk_mul 64 dbg (len / 2) row_size in
+  let* k := (if two64 <=? len / 2 * row_size then Err EUnexpectedEof else Ok (len / 2 * row_size)) in
   let* (head, tail) := rd_split k reader in
   let* (p, _) := parse_encoded_pointer dbg (h_be h) (h_enc h) (hdr_pp hb h) tail in
   let* pivot := pointer_direct p in
@@ -201,7 +201,7 @@ Section Bsearch.
         assert (Hlen : length rows = (length pre + length mid + length post)%nat).
         { rewrite Hrows, !app_length. lia. }
         assert (Hmul : N.of_nat m * row < 2 ^ 64) by (unfold n in Hnomul; nia).
-        unfold chk_mul. destruct (N.of_nat m * row <? 2 ^ 64) eqn:Emul; [|lia]. cbn [bind].
+        change two64 with (2 ^ 64). destruct (2 ^ 64 <=? N.of_nat m * row) eqn:Emul; [lia|]. cbn [bind].
         replace (flat mid) with (flat (firstn m mid) ++ flat (skipn m mid)) by (rewrite <- flat_app, firstn_skipn; reflexivity).
         rewrite <- app_assoc.
         assert (Hw1 : wf_rows size (firstn m mid) /\ wf_rows size (skipn m mid)).
